@@ -86,4 +86,41 @@ theorem beNat4_inj (a b : Bytes) (ha : a.length = 4) (hb : b.length = 4) (e : be
     have e3 : a3.toNat = b3.toNat := by omega
     rw [UInt8.toNat_inj.mp e0, UInt8.toNat_inj.mp e1, UInt8.toNat_inj.mp e2, UInt8.toNat_inj.mp e3]
 
+/-! inverses of the byte-order helpers in the other direction (used by `C15_accepted_is_encoding`) -/
+theorem leNat_cons_mod (b : UInt8) (bs : Bytes) : leNat (b :: bs) % 256 = b.toNat := by
+  have := b.toNat_lt; simp only [leNat]; omega
+theorem leNat_cons_div (b : UInt8) (bs : Bytes) : leNat (b :: bs) / 256 = leNat bs := by
+  have := b.toNat_lt; simp only [leNat]; omega
+
+theorem le64_iter (n : Nat) : le64 n =
+    [UInt8.ofNat (n % 256), UInt8.ofNat (n / 256 % 256), UInt8.ofNat (n / 256 / 256 % 256),
+     UInt8.ofNat (n / 256 / 256 / 256 % 256), UInt8.ofNat (n / 256 / 256 / 256 / 256 % 256),
+     UInt8.ofNat (n / 256 / 256 / 256 / 256 / 256 % 256), UInt8.ofNat (n / 256 / 256 / 256 / 256 / 256 / 256 % 256),
+     UInt8.ofNat (n / 256 / 256 / 256 / 256 / 256 / 256 / 256 % 256)] := by
+  simp only [le64, Nat.div_div_eq_div_mul]
+
+theorem le64_leNat (a : Bytes) (ha : a.length = 8) : le64 (leNat a) = a := by
+  match a, ha with
+  | [a0, a1, a2, a3, a4, a5, a6, a7], _ =>
+    rw [le64_iter]
+    simp only [leNat_cons_mod, leNat_cons_div, UInt8.ofNat_toNat]
+
+theorem leNat_lt (a : Bytes) : leNat a < 256 ^ a.length := by
+  induction a with
+  | nil => simp [leNat]
+  | cons b bs ih =>
+    have := b.toNat_lt
+    simp only [leNat, List.length_cons, Nat.pow_succ]
+    omega
+theorem be32_beNat (a : Bytes) (ha : a.length = 4) : be32 (beNat a) = a := by
+  match a, ha with
+  | [a0, a1, a2, a3], _ =>
+    have := a0.toNat_lt; have := a1.toNat_lt; have := a2.toNat_lt; have := a3.toNat_lt
+    simp only [beNat, List.foldl, be32]
+    have e0 : ((((0 * 256 + a0.toNat) * 256 + a1.toNat) * 256 + a2.toNat) * 256 + a3.toNat) / 256^3 % 256 = a0.toNat := by omega
+    have e1 : ((((0 * 256 + a0.toNat) * 256 + a1.toNat) * 256 + a2.toNat) * 256 + a3.toNat) / 256^2 % 256 = a1.toNat := by omega
+    have e2 : ((((0 * 256 + a0.toNat) * 256 + a1.toNat) * 256 + a2.toNat) * 256 + a3.toNat) / 256 % 256 = a2.toNat := by omega
+    have e3 : ((((0 * 256 + a0.toNat) * 256 + a1.toNat) * 256 + a2.toNat) * 256 + a3.toNat) % 256 = a3.toNat := by omega
+    rw [e0, e1, e2, e3]; simp
+
 end Model
